@@ -439,11 +439,22 @@ def rel_close(a, b, tol):
     return bool(np.all(np.abs(a - b) <= tol * max(s, 1e-300)))
 
 APIS = ['GIM_uncert', 'FIM_uncert', 'LRT_adjust', 'Wald_stat', 'score_stat']
+APIS_ALL = APIS + ['get_godambe']
 
-def call_api(G, api, func, pts, boots, p0, data, eps, multinom, log=False, nested=None, full=None, thetas=None):
+def call_api(G, api, func, pts, boots, p0, data, eps, multinom, log=False, nested=None, full=None, thetas=None, variant=None):
+    """`variant`: GIM_uncert/FIM_uncert: 'plain' = return_GIM/return_FIM False (the result is then completed with None entries);
+    get_godambe: 'just_hess'.  The result always has the shape of the full variant."""
+    if api == 'get_godambe':
+        if variant == 'just_hess':
+            return (None, G.get_godambe(func, pts, boots, p0, data, eps, log=log, just_hess=True, boot_theta_adjusts=thetas if thetas else []), None, None)
+        return G.get_godambe(func, pts, boots, p0, data, eps, log=log, boot_theta_adjusts=thetas if thetas else [])
     if api == 'GIM_uncert':
+        if variant == 'plain':
+            return (G.GIM_uncert(func, pts, boots, p0, data, log=log, multinom=multinom, eps=eps, boot_theta_adjusts=thetas), None, None)
         return G.GIM_uncert(func, pts, boots, p0, data, log=log, multinom=multinom, eps=eps, return_GIM=True, boot_theta_adjusts=thetas)
     if api == 'FIM_uncert':
+        if variant == 'plain':
+            return (G.FIM_uncert(func, pts, p0, data, log=log, multinom=multinom, eps=eps), None)
         return G.FIM_uncert(func, pts, p0, data, log=log, multinom=multinom, eps=eps, return_FIM=True)
     if api == 'LRT_adjust':
         return G.LRT_adjust(func, pts, boots, p0, data, nested, multinom=multinom, eps=eps, boot_theta_adjusts=thetas)
@@ -454,8 +465,8 @@ def call_api(G, api, func, pts, boots, p0, data, eps, multinom, log=False, neste
     raise KeyError(api)
 
 def flat_result(api, r):
-    if api == 'GIM_uncert': return np.concatenate([np.asarray(r[0]).ravel(), np.asarray(r[1]).ravel(), np.asarray(r[2]).ravel()])
-    if api == 'FIM_uncert': return np.concatenate([np.asarray(r[0]).ravel(), np.asarray(r[1]).ravel()])
+    if api in ('GIM_uncert', 'FIM_uncert', 'get_godambe'):
+        return np.concatenate([np.asarray(x, dtype=float).ravel() for x in r if x is not None])
     if api == 'LRT_adjust': return np.array([float(r)])
     return np.array([float(r[0]), float(r[1])])
 
@@ -464,8 +475,10 @@ def gen_pipeline_case(rng, dadi, api=None, **force):
     n = mdl['n']
     api = api or APIS[int(rng.integers(len(APIS)))]
     multinom = bool(rng.random() < 0.5) if 'multinom' not in force else force['multinom']
-    log = bool(api in ('GIM_uncert', 'FIM_uncert') and rng.random() < 0.3) if 'log' not in force else force['log']
-    p = [coarse(rng.uniform(0.4, 3.0)) for _ in range(n)]
+    if api == 'get_godambe': multinom = False           # get_godambe has no multinom option (the entry points wrap the model)
+    log = bool(api in ('GIM_uncert', 'FIM_uncert', 'get_godambe') and rng.random() < 0.4) if 'log' not in force else force['log']
+    # log-parameters: the stencils see log(p); keep log(p)*eps/2 above 1e-6 so that the central (second-order) stencils apply
+    p = [coarse(rng.uniform(1.3, 3.0) if log else rng.uniform(0.4, 3.0)) for _ in range(n)]
     theta = coarse(rng.uniform(20, 200))
     nboot = int(rng.integers(max(4, n + 3), 12))
     eps = float(np.exp(rng.uniform(np.log(1e-4), np.log(1e-1)))) if rng.random() < 0.8 else float(rng.choice([1e-4, 1e-2, 1e-1]))
@@ -477,10 +490,16 @@ def gen_pipeline_case(rng, dadi, api=None, **force):
             k = int(rng.integers(1, n + 1)) if n > 1 else 1
             nested = sorted(int(i) for i in rng.choice(n, size=min(k, n), replace=False))
         full = [coarse(p[i] * rng.uniform(0.7, 1.3)) for i in nested]
-    use_thetas = bool((not multinom) and api in ('GIM_uncert', 'LRT_adjust') and rng.random() < 0.4)
-    thetas = [coarse(rng.uniform(0.7, 1.3)) for _ in range(nboot)] if use_thetas else None
+    tmode = force.get('thetas_mode')
+    if tmode is None:
+        tmode = 'none'
+        if (not multinom) and api in ('GIM_uncert', 'LRT_adjust', 'get_godambe') and rng.random() < 0.5:
+            tmode = 'varied' if rng.random() < 0.75 else 'ones'
+    thetas = None if tmode == 'none' else ([1.0] * nboot if tmode == 'ones' else [coarse(rng.uniform(0.6, 1.5)) for _ in range(nboot)])
+    variant = force.get('variant')
+    if 'variant' not in force and api in ('GIM_uncert', 'FIM_uncert') and rng.random() < 0.3: variant = 'plain'
     return dict(pipeline=True, api=api, B=mdl['B'], n=n, ns=mdl['ns'], p=p, theta=theta, nboot=nboot, eps=eps, multinom=multinom, log=log,
-                nested=nested, full=full, thetas=thetas, dseed=int(rng.integers(1 << 30)))
+                nested=nested, full=full, thetas=thetas, thetas_mode=tmode, variant=variant, dseed=int(rng.integers(1 << 30)))
 
 def realise(dadi, case):
     r = np.random.default_rng(case['dseed'])
@@ -504,16 +523,18 @@ def pipeline_case(chk, ctx, case):
     func = model_func(dadi, B)
     p_in = list(case['p']); f_in = func
     nested, full, thetas = case['nested'], case['full'], case['thetas']
-    key0 = '%s:multinom=%s%s' % (api, multinom, ':log' if log else '')
-    chk.l3((api, multinom, log, n, bool(thetas), tuple(nested) if nested else None))
+    variant = case.get('variant'); tmode = case.get('thetas_mode') or ('varied' if thetas else 'none')
+    key0 = '%s:multinom=%s%s%s' % (api, multinom, ':log' if log else '', ':boot_theta_adjusts' if tmode == 'varied' else '')
+    chk.l3((api, multinom, log, n, tmode, variant, tuple(nested) if nested else None))
     chk.stat('api:' + api); chk.stat('multinom:%s' % multinom);
     if log: chk.stat('log_params')
-    if thetas: chk.stat('boot_theta_adjusts')
+    if thetas: chk.stat('boot_theta_adjusts:' + tmode)
+    chk.stat('options:%s:log=%s:multinom=%s:adjusts=%s:%s' % (api, log, multinom, tmode, variant or 'full'))
     G.cache.clear()
     with Spy(G) as spy:
         try:
             with np.errstate(all='ignore'):
-                res = call_api(G, api, f_in, [10], boots, p_in, data, eps, multinom, log=log, nested=nested, full=full, thetas=thetas)
+                res = call_api(G, api, f_in, [10], boots, p_in, data, eps, multinom, log=log, nested=nested, full=full, thetas=thetas, variant=variant)
         except Exception as e:
             chk.fail('%s:%s' % (key0, type(e).__name__), '%s on a linear Poisson model raises %r' % (api, e), small); return
     if not spy.god or not spy.hess:
@@ -557,13 +578,14 @@ def pipeline_case(chk, ctx, case):
         chk.k_bad('wrapped_function', small, repr(e), None, None)
     # ---- assembly (K): everything derived from H and the gradients, in exact rationals
     ret = flat_result(api, res)
-    if api != 'FIM_uncert' and not grads:
+    hess_only = api == 'FIM_uncert' or (api == 'get_godambe' and variant == 'just_hess')
+    if not hess_only and not grads:
         chk.fail(key0 + ':no_gradients', '%s did not evaluate any bootstrap gradient' % api, small); return
     diff = None
     if api == 'Wald_stat':
         diff = np.asarray(full, dtype=float) - np.asarray(god['p0'], dtype=float)
     cH = cond(H)
-    if api == 'FIM_uncert':
+    if hess_only:
         out = drv.ask('c19.stats %s %s -' % (fmt_mat(H), fmt_mat([[1.0] * N] * 1)))
     else:
         out = drv.ask('c19.stats %s %s %s' % (fmt_mat(H), fmt_mat(grads), fmt_list(diff.tolist()) if diff is not None else '-'))
@@ -571,9 +593,9 @@ def pipeline_case(chk, ctx, case):
     if t[0] != 'ok' or len(t) != 11:
         chk.k_bad('assembly:' + api, small, ret, out, None)
     else:
-        J = parse_mat(t[1]); cJ = cond(J) if api != 'FIM_uncert' else 1.0
-        amp = 1e-9 + 200 * U * (cH + cJ + cH * cJ if api not in ('FIM_uncert',) else cH)
-        if not math.isfinite(amp) or amp > 1e-3 or 'E' in [t[3]] and api != 'FIM_uncert':
+        J = parse_mat(t[1]); cJ = cond(J) if not hess_only else 1.0
+        amp = 1e-9 + 200 * U * (cH + cJ + cH * cJ if not hess_only else cH)
+        if not math.isfinite(amp) or amp > 1e-3 or 'E' in [t[3]] and not hess_only:
             chk.k_skipped += 1; chk.stat('skipped_illconditioned')
         else:
             def f(i): return None if t[i] == 'E' else (parse_mat(t[i]) if ';' in t[i] or i in (1, 2, 3) else np.array([float(v) for v in parse_list(t[i])]))
@@ -594,9 +616,14 @@ def pipeline_case(chk, ctx, case):
                 if u.shape != var.shape or not np.array_equal(np.isnan(u), neg): ok = False; return
                 if np.any(~neg): cmp((u ** 2)[~neg], var[~neg])
             if api == 'GIM_uncert':
-                cmp_unc(res[0], f(4)); cmp(res[1], f(3)); cmp(res[2], H)
+                cmp_unc(res[0], f(4))
+                if res[1] is not None: cmp(res[1], f(3)); cmp(res[2], H)
             elif api == 'FIM_uncert':
-                cmp_unc(res[0], f(5)); cmp(res[1], H)
+                cmp_unc(res[0], f(5))
+                if res[1] is not None: cmp(res[1], H)
+            elif api == 'get_godambe':
+                cmp(res[1], H)
+                if res[0] is not None: cmp(res[0], f(3)); cmp(res[2], f(1)); cmp(np.asarray(res[3]).ravel(), np.asarray(f(2)).ravel())
             elif api == 'LRT_adjust':
                 cmp([res], f(6))
             elif api == 'Wald_stat':
@@ -612,6 +639,7 @@ def l3_closed_forms(chk, ctx, case, small, key0, B, data, boots, func, p_in, f_i
     dadi = ctx['dadi']; G = dadi.Godambe
     api, n, eps, multinom, log = case['api'], case['n'], case['eps'], case['multinom'], case['log']
     nested, full, thetas = case['nested'], case['full'], case['thetas']
+    variant = case.get('variant'); hess_only = api == 'FIM_uncert' or (api == 'get_godambe' and variant == 'just_hess')
     Bc = B[:, 1:-1]; d = np.asarray(data)[1:-1]; bs = [np.asarray(b)[1:-1] for b in boots]
     mode = ('multinom' if multinom else 'plain') + ('_log' if log else '')
     if mode == 'plain_log': mode = 'log'
@@ -626,7 +654,7 @@ def l3_closed_forms(chk, ctx, case, small, key0, B, data, boots, func, p_in, f_i
     with Spy(G) as spy2:
         try:
             with np.errstate(all='ignore'):
-                call_api(G, api, f_in, [10], boots, p_in, data, eps / 2, multinom, log=log, nested=nested, full=full, thetas=thetas)
+                call_api(G, api, f_in, [10], boots, p_in, data, eps / 2, multinom, log=log, nested=nested, full=full, thetas=thetas, variant=variant)
         except Exception as e:
             chk.fail('%s:%s' % (key0, type(e).__name__), '%s raises %r at eps/2' % (api, e), small); return
     H2 = -spy2.hess[0][1]; grads2 = [g for _, g, _ in spy2.grads]
@@ -657,12 +685,13 @@ def l3_closed_forms(chk, ctx, case, small, key0, B, data, boots, func, p_in, f_i
     okH = crit(H, H2, Hx, floorH, 'observed information H', 'H_closed_form')
     chk.stat('closed_form_H')
     okg = True
-    if api != 'FIM_uncert':
+    if not hess_only:
         floorg = 256 * U * L / (steps / 2)
         for b, (g, g2, ge) in enumerate(zip(grads, grads2, gx)):
             if not crit(g, g2, ge, floorg, 'score of bootstrap %d' % b, 'score_closed_form'): okg = False; break
         chk.stat('closed_form_scores', len(grads))
     if not (okH and okg): return
+    if api == 'get_godambe' and hess_only: return
     # ---- the statistic itself against the statistic computed from the closed forms: tolerance from the sensitivities
     if api == 'FIM_uncert':
         if np.any(np.diag(np.linalg.inv(Hx)) <= 0): chk.stat('closed_form_stat_indefinite_information'); return
@@ -676,13 +705,16 @@ def l3_closed_forms(chk, ctx, case, small, key0, B, data, boots, func, p_in, f_i
     diff = (np.asarray(full, dtype=float) - np.asarray(god['p0'], dtype=float)) if api == 'Wald_stat' else None
     def stat_vec(Hm, gl):
         s = stats_from(Hm, gl, diff)
-        if api == 'GIM_uncert': return np.sqrt(s['varGIM'])
+        if api == 'GIM_uncert': return np.sqrt(s['varGIM']) if res[1] is None else np.concatenate([np.sqrt(s['varGIM']), s['GIM'].ravel()])
+        if api == 'get_godambe': return np.concatenate([s['GIM'].ravel(), s['J'].ravel(), s['cU'].ravel()])
         if api == 'LRT_adjust': return np.array([s['lrt']])
         if api == 'Wald_stat': return np.array([s['waldAdj'], s['waldOrg']])
         return np.array([s['scoreAdj'], s['scoreOrg']])
     with np.errstate(all='ignore'):
         ex = stat_vec(Hx, gx)
-        got = flat_result(api, res)[:len(ex)] if api != 'GIM_uncert' else np.asarray(res[0], dtype=float)
+        if api == 'GIM_uncert': got = np.asarray(res[0], dtype=float) if res[1] is None else np.concatenate([np.asarray(res[0], dtype=float), np.asarray(res[1], dtype=float).ravel()])
+        elif api == 'get_godambe': got = np.concatenate([np.asarray(res[0], dtype=float).ravel(), np.asarray(res[2], dtype=float).ravel(), np.asarray(res[3], dtype=float).ravel()])
+        else: got = flat_result(api, res)[:len(ex)]
         # first-order sensitivity to every entry of H and of every score vector (numerical, on the closed form)
         tol = np.zeros_like(ex)
         dH = np.abs(H - Hx); dg = [np.abs(a - b) for a, b in zip(grads, gx)]
@@ -695,17 +727,64 @@ def l3_closed_forms(chk, ctx, case, small, key0, B, data, boots, func, p_in, f_i
                 gl = [g.copy() for g in gx]; hh = 1e-6 * max(abs(gx[k][a]), 1e-3); gl[k][a] += hh
                 tol += np.abs(stat_vec(Hx, gl) - ex) / hh * dg[k][a]
     tol = 3 * tol + 1e-7 * np.abs(ex)
-    if not np.all(np.isfinite(ex)) or not np.all(np.isfinite(tol)) or np.any(tol > 0.3 * np.abs(ex) + 1e-300):
+    if not np.all(np.isfinite(ex)) or not np.all(np.isfinite(tol)):
+        chk.stat('closed_form_stat_illconditioned'); return
+    scale = float(np.max(np.abs(ex))) if api in ('get_godambe',) or (api == 'GIM_uncert' and res[1] is not None) else 0.0
+    judged = tol <= 0.3 * np.maximum(np.abs(ex), 0.0) + 0.02 * scale + 1e-300       # matrix entries: relative to the matrix scale
+    if not np.all(judged) and scale == 0.0:
+        chk.stat('closed_form_stat_illconditioned'); return
+    if not np.any(judged):
         chk.stat('closed_form_stat_illconditioned'); return
     chk.stat('closed_form_stat')
-    if np.any(np.abs(got - ex) > tol):
+    if got.shape != ex.shape:
+        chk.fail(key0 + ':stat_closed_form:shape', '%s returns %d numbers, the closed form has %d' % (api, got.size, ex.size), small); return
+    if np.any((np.abs(got - ex) > tol) & judged):
         chk.fail(key0 + ':stat_closed_form', '%s returns %r; the same statistic from the closed-form H and scores is %r (eps=%g)' % (api, got.tolist(), ex.tolist(), eps), small)
+
+def refusal_cases(chk, ctx, rng):
+    """documented: boot_theta_adjusts is only valid with multinom=False (GIM_uncert, LRT_adjust raise ValueError)"""
+    dadi = ctx['dadi']; G = dadi.Godambe
+    for api in ('GIM_uncert', 'LRT_adjust'):
+        for tmode in ('ones', 'varied'):
+            case = gen_pipeline_case(rng, dadi, api=api, multinom=True, log=False, thetas_mode='none')
+            B, data, boots = realise(dadi, case)
+            th = [1.0] * len(boots) if tmode == 'ones' else [coarse(rng.uniform(0.6, 1.5)) for _ in boots]
+            small = dict(case); small['B'] = np.asarray(B); small['refusal'] = tmode
+            chk.l3(('refusal', api, tmode))
+            try:
+                call_api(G, api, model_func(dadi, B), [10], boots, list(case['p']), data, 0.01, True, nested=case['nested'], full=case['full'], thetas=th)
+                chk.fail('%s:multinom=True:boot_theta_adjusts:accepted' % api, '%s(multinom=True, boot_theta_adjusts=%r) is accepted; documented: only valid with multinom=False (ValueError)' % (api, th), small)
+            except ValueError:
+                chk.stat('refused_adjusts_with_multinom')
+            except Exception as e:
+                chk.fail('%s:multinom=True:boot_theta_adjusts:%s' % (api, type(e).__name__), '%s raises %r instead of ValueError' % (api, e), small)
+
+def option_matrix(rng, dadi):
+    """every combination of the options that an entry point has: log x multinom x boot_theta_adjusts {none, all 1, varied} x result variant"""
+    cases = []
+    for log in (False, True):
+        for tmode in ('none', 'ones', 'varied'):
+            for variant in (None, 'just_hess'):
+                cases.append(gen_pipeline_case(rng, dadi, api='get_godambe', multinom=False, log=log, thetas_mode=tmode, variant=variant))
+            for variant in (None, 'plain'):
+                cases.append(gen_pipeline_case(rng, dadi, api='GIM_uncert', multinom=False, log=log, thetas_mode=tmode, variant=variant))
+        for variant in (None, 'plain'):
+            cases.append(gen_pipeline_case(rng, dadi, api='GIM_uncert', multinom=True, log=log, thetas_mode='none', variant=variant))
+            for multinom in (False, True):
+                cases.append(gen_pipeline_case(rng, dadi, api='FIM_uncert', multinom=multinom, log=log, thetas_mode='none', variant=variant))
+    for tmode in ('none', 'ones', 'varied'):
+        cases.append(gen_pipeline_case(rng, dadi, api='LRT_adjust', multinom=False, log=False, thetas_mode=tmode))
+    cases.append(gen_pipeline_case(rng, dadi, api='LRT_adjust', multinom=True, log=False, thetas_mode='none'))
+    for api in ('Wald_stat', 'score_stat'):
+        for multinom in (False, True):
+            cases.append(gen_pipeline_case(rng, dadi, api=api, multinom=multinom, log=False, thetas_mode='none'))
+    return cases
 
 def perm_case(chk, ctx, case, rng):
     """L3: the order of the bootstrap list (and of boot_theta_adjusts with it) does not matter"""
     dadi = ctx['dadi']; G = dadi.Godambe
     api = case['api']
-    if api == 'FIM_uncert': return
+    if api == 'FIM_uncert' or case.get('variant') == 'just_hess': return
     B, data, boots = realise(dadi, case)
     multinom = case['multinom']
     small = dict(case); small['B'] = np.asarray(B); small['perm'] = True
@@ -716,7 +795,7 @@ def perm_case(chk, ctx, case, rng):
     try:
         G.cache.clear()
         with np.errstate(all='ignore'):
-            r0 = flat_result(api, call_api(G, api, func, [10], boots, p_in, data, case['eps'], multinom, log=case['log'], nested=case['nested'], full=full, thetas=case['thetas']))
+            r0 = flat_result(api, call_api(G, api, func, [10], boots, p_in, data, case['eps'], multinom, log=case['log'], nested=case['nested'], full=full, thetas=case['thetas'], variant=case.get('variant')))
         for it in range(3):
             o = [int(i) for i in rng.permutation(len(boots))]
             if it == 2: o = list(reversed(range(len(boots))))
@@ -724,7 +803,7 @@ def perm_case(chk, ctx, case, rng):
             G.cache.clear()
             with np.errstate(all='ignore'):
                 r1 = flat_result(api, call_api(G, api, func, [10], [boots[i] for i in o], p_in, data, case['eps'], multinom, log=case['log'], nested=case['nested'],
-                                               full=full, thetas=[case['thetas'][i] for i in o] if case['thetas'] else None))
+                                               full=full, thetas=[case['thetas'][i] for i in o] if case['thetas'] else None, variant=case.get('variant')))
             # float summation order changes J by ~u; the statistics amplify that by the conditioning of J and H
             if not (r0.shape == r1.shape and np.all(np.abs(r0 - r1) <= 1e-7 * np.maximum(np.abs(r0), 1e-300))):
                 chk.fail('%s:boot_order' % api, '%s changes from %r to %r when the bootstrap list is given in the order %r' % (api, r0.tolist()[:6], r1.tolist()[:6], o), small)
@@ -974,13 +1053,11 @@ def run(chk, ctx):
     step_rule_cases(chk, ctx, rng, 80 if quick else 1000)
     # ---- pipeline on linear Poisson models
     pcs = []
-    for api in APIS:
-        for multinom in (False, True):
-            pcs.append(gen_pipeline_case(rng, dadi, api=api, multinom=multinom))
-    pcs.append(gen_pipeline_case(rng, dadi, api='GIM_uncert', multinom=False, log=True))
-    pcs.append(gen_pipeline_case(rng, dadi, api='FIM_uncert', multinom=True, log=True))
-    for _ in range(40 if quick else 600):
-        pcs.append(gen_pipeline_case(rng, dadi))
+    for _ in range(1 if quick else 8):
+        pcs += option_matrix(rng, dadi)
+    refusal_cases(chk, ctx, rng)
+    for _ in range(30 if quick else 500):
+        pcs.append(gen_pipeline_case(rng, dadi, api=APIS_ALL[int(rng.integers(len(APIS_ALL)))]))
     for i, c in enumerate(pcs):
         if i < 2: chk.sample(dict(kind='pipeline', api=c['api'], multinom=c['multinom'], log=c['log'], params=c['p'], theta=c['theta'], eps=c['eps'], nested=c['nested'],
                                   bootstraps=c['nboot'], samples=c['ns']))
